@@ -13,7 +13,7 @@
    OtherErr 1 is Raise KeyError. *)
 From Coq Require Import ZArith List Bool Lia Arith.
 From FT Require Import Base.Dict Model.NpRt Model.LabelUtils Model.Relabel Model.ImportTable Model.PyRt6.
-From FT Require Import Proofs.DictLemmas Proofs.LabelUtilsTie Proofs.RelabelTie.
+From FT Require Import Proofs.DictLemmas Proofs.NpRtLemmas Proofs.RelabelTie.
 From FT Require Gen.Relabel_gen Gen.ImportPipeline_gen.
 Import ListNotations.
 Open Scope Z_scope.
